@@ -768,6 +768,12 @@ impl<'t, 'a> Gen<'t, 'a> {
                     let e = if self.prof.objects && self.t.chance(70) { self.method_call(elem, d) } else { self.expr(elem, d - 1) };
                     self.frame().cond -= 1;
                     e
+                } else if self.prof.objects && self.t.chance(50) {
+                    // a field read is a "simple" initializer as well: evaluated once
+                    match self.field_read(elem, 1) {
+                        e @ E::Field(..) => e,
+                        _ => self.leaf(elem),
+                    }
                 } else {
                     self.leaf(elem)
                 };
@@ -903,6 +909,13 @@ impl<'t, 'a> Gen<'t, 'a> {
     }
 
     fn new_class(&mut self) -> usize {
+        self.new_class_how(false).0
+    }
+
+    /// `inline`: the object literal is generated right here in the current frame (its field
+    /// initializers see the current scope) and returned as an expression; such a class has no
+    /// constructor function and its instances are reachable only through variables
+    fn new_class_how(&mut self, inline: bool) -> (usize, Option<E>) {
         self.creating += 1;
         let k0 = self.classes.len();
         let parent = match self.t.weighted(&[10, 4, 2, if self.prof.arrays { 4 } else { 0 }, if k0 > 0 { self.prof.w_parent_obj } else { 0 }]) {
@@ -921,7 +934,7 @@ impl<'t, 'a> Gen<'t, 'a> {
         };
         let ctor_name = self.unique("mk");
         self.fun_names.push(ctor_name.clone());
-        let np = self.t.pick(3);
+        let np = if inline { 0 } else { self.t.pick(3) };
         let mut params = vec![];
         let mut pnames = vec![];
         for _ in 0..np {
@@ -930,10 +943,12 @@ impl<'t, 'a> Gen<'t, 'a> {
             let pn = if pnames.contains(&cand) { self.unique("p") } else { cand };
             pnames.push(pn);
         }
-        // constructor frame
+        // constructor frame (none for an inline literal: it lives in the current frame)
         let scope: Vec<VarInfo> =
             pnames.iter().zip(params.iter()).map(|(n, t)| VarInfo { name: n.clone(), ty: t.clone(), ro: false }).collect();
-        self.frames.push(FrameEnv { scopes: vec![scope], top: false, cond: 0 });
+        if !inline {
+            self.frames.push(FrameEnv { scopes: vec![scope], top: false, cond: 0 });
+        }
         let d = 2;
         let parent_expr = match &parent {
             Parent::Null => None,
@@ -955,7 +970,7 @@ impl<'t, 'a> Gen<'t, 'a> {
         }
         // nested creations above may have added classes: the index is fixed only now
         let k = self.classes.len();
-        self.classes.push(Class { ctor: Some((ctor_name.clone(), params.clone())), fields: fields.clone(), methods: vec![], parent: parent.clone() });
+        self.classes.push(Class { ctor: if inline { None } else { Some((ctor_name.clone(), params.clone())) }, fields: fields.clone(), methods: vec![], parent: parent.clone() });
         let nm = self.t.pick(4);
         for _ in 0..nm {
             let (mname, mparams): (String, Vec<Ty>) = match self.t.weighted(&[10, 5, 3, 3]) {
@@ -1020,8 +1035,12 @@ impl<'t, 'a> Gen<'t, 'a> {
                 self.classes[k].fields = f2;
             }
         }
-        self.frames.pop();
         let body = E::Object(parent_expr.map(bx), members);
+        if inline {
+            self.creating -= 1;
+            return (k, Some(body));
+        }
+        self.frames.pop();
         let def = E::Fun(ctor_name, pnames, bx(body));
         if self.t.chance(48) {
             self.hoisted.push(def);
@@ -1029,7 +1048,7 @@ impl<'t, 'a> Gen<'t, 'a> {
             self.pending.push(def);
         }
         self.creating -= 1;
-        k
+        (k, None)
     }
 
     fn method_call(&mut self, ty: &Ty, d: usize) -> E {
@@ -1298,6 +1317,14 @@ impl<'t, 'a> Gen<'t, 'a> {
         match self.t.weighted(&weights) {
             0 => out.push(self.print_stmt(d)),
             1 => {
+                if p.objects && self.classes.len() < self.prof.max_classes + 2 && self.creating < 2 && !self.conditional() && self.t.chance(36) {
+                    // an object literal written in place (not through a constructor function)
+                    let (k, lit) = self.new_class_how(true);
+                    let name = self.let_name();
+                    self.register_let(&name, Ty::Obj(k));
+                    out.push(E::Let(name, bx(lit.unwrap())));
+                    return;
+                }
                 let ty = self.random_ty(2, false);
                 let v = self.expr(&ty, d);
                 let name = self.let_name();
